@@ -76,6 +76,22 @@ func c03Run(e *vh.Env, c c03Case, o *vh.Out) {
 			time.Sleep(31 * time.Second)
 			return true
 		}
+		if kind == "storm" {
+			for k := 0; k < 8; k++ {
+				r := doFault(sys, "f5", nil)
+				o.Obs("fault_requests", 1)
+				if r.Dur > c03Bound {
+					o.Viol("C03|request-too-long|storm", fmt.Sprintf("%s: request %d of the 5xx storm ended only after %v", ctx, k+1, r.Dur), r)
+					return false
+				}
+				if r.Status == 0 && r.Err == "" {
+					o.Viol("C03|no-outcome|storm", fmt.Sprintf("%s: request %d of the 5xx storm had no outcome", ctx, k+1), r)
+					return false
+				}
+			}
+			o.Obs("fault_storm", 1)
+			return true
+		}
 		r := doFault(sys, kind, nil)
 		o.Obs("fault_requests", 1)
 		o.Obs("fault_"+kind, 1)
@@ -150,6 +166,9 @@ func c03Run(e *vh.Env, c c03Case, o *vh.Out) {
 		}
 	}
 	if now > base {
+		// a count that is higher once may be a goroutine of the harness's own servers that ended late: the case is
+		// re-executed, and only an excess that shows on every execution is reported (vh.FlagAnomaly)
+		vh.FlagAnomaly(fmt.Sprintf("goroutines %d -> %d: %v", base, now, vh.GoroutineDiff(baseSigs, nowSigs)))
 		o.Viol("C03|goroutine-leak|"+sigc, fmt.Sprintf("%s: %d goroutines before the faults, %d after everything has been idle for 130 s", ctx, base, now), map[string]any{"before": base, "after": now, "new_goroutines": vh.GoroutineDiff(baseSigs, nowSigs), "gone_goroutines": vh.GoroutineDiff(nowSigs, baseSigs)})
 		return
 	}
@@ -177,11 +196,25 @@ func init() {
 				}
 			}
 			rec(nil)
+			// a 5xx storm (eight failing answers in a row: trips the breaker and ejects every backend where those
+			// features are on) alone, before and after each fault, and followed by a pause longer than every window
+			seqs = append(seqs, []string{"storm"}, []string{"storm", "storm"})
+			for _, k := range faultKinds {
+				seqs = append(seqs, []string{"storm", k}, []string{k, "storm"}, []string{"storm", "w", k})
+			}
 			i := 0
 			for _, sq := range seqs {
-				for fi, f := range feats {
+				fs := feats
+				if sq[0] == "storm" || sq[len(sq)-1] == "storm" {
+					// the storm ejects every backend only where no breaker stops it first: those feature sets come first
+					fs = append([]featureCfg{{Passive: true}, {Passive: true, Active: true, Limiter: true, Chain: "full"}}, feats...)
+				}
+				for fi, f := range fs {
 					// quick: two strategies per (sequence, features) chosen round-robin; thorough: all five
 					n := e.Pick(2, 5)
+					if sq[0] == "storm" && len(sq) <= 2 && fi < 2 {
+						n = 5
+					}
 					for k := 0; k < n; k++ {
 						cs = append(cs, c03Case{Strategy: strats[(i+k+fi)%5], Feat: f, Seq: sq})
 					}
@@ -214,12 +247,12 @@ func init() {
 			return cs
 		},
 		func(e *vh.Env, c c03Case, o *vh.Out) {
-			o.Need("fault_requests", "probes_ok", "goroutine_baselines_restored", "fault_hang", "fault_short", "fault_cdown", "fault_refuse")
+			o.Need("fault_requests", "probes_ok", "goroutine_baselines_restored", "fault_hang", "fault_short", "fault_cdown", "fault_refuse", "fault_storm")
 			c03Run(e, c, o)
 			o.Eval(1)
 			o.Distinct(vh.J(c))
 			if len(c.Seq) == 2 && c.Seq[0] == "short" && c.Seq[1] == "hang" && c.Feat.Breaker && c.Feat.Chain == "full" {
-				o.Sample(map[string]any{"part": "fault-sequences", "case": c, "alphabet": "refuse hang(before headers) reset(after headers) short(truncated body) garb(non-HTTP answer) f5 slow(dripped body) cup(client abort mid-upload) cdown(client abort mid-download)"})
+				o.Sample(map[string]any{"part": "fault-sequences", "case": c, "alphabet": "refuse hang(before headers) reset(after headers) short(truncated body) garb(non-HTTP answer) f5 slow(dripped body) cup(client abort mid-upload) cdown(client abort mid-download) storm(eight 5xx in a row)"})
 			}
 		})
 
